@@ -29,6 +29,8 @@ type routeSpec struct {
 type serviceSpec struct {
 	Root   string      `json:"root"`
 	Routes []routeSpec `json:"routes"`
+	WProd  []string    `json:"wprod"` // WebService.Produces: default for routes without their own
+	WCons  []string    `json:"wcons"`
 }
 
 type tableCase struct {
@@ -126,6 +128,10 @@ func jsrTok(tok string) bool {
 		!strings.Contains(tok[strings.LastIndex(tok, "}"):], ":")
 }
 
+// withFilter: a pass-through container filter (dispatch composes a filter chain instead of calling the
+// route function directly)
+var withFilter bool
+
 func buildContainer(t tableCase, router string, order [][2]int, cell **obsCell) (c *restful.Container, addPanic string) {
 	defer func() {
 		if pv := recover(); pv != nil {
@@ -141,6 +147,11 @@ func buildContainer(t tableCase, router string, order [][2]int, cell **obsCell) 
 	} else {
 		c.Router(restful.CurlyRouter{})
 	}
+	if withFilter {
+		c.Filter(func(req *restful.Request, resp *restful.Response, chain *restful.FilterChain) {
+			chain.ProcessFilter(req, resp)
+		})
+	}
 	// order: sequence of (ws index, route index) in registration order; services are added
 	// in order of first appearance
 	added := map[int]*restful.WebService{}
@@ -151,6 +162,12 @@ func buildContainer(t tableCase, router string, order [][2]int, cell **obsCell) 
 		if !ok {
 			ws = new(restful.WebService)
 			ws.Path(t.Services[wi].Root)
+			if len(t.Services[wi].WProd) > 0 {
+				ws.Produces(t.Services[wi].WProd...)
+			}
+			if len(t.Services[wi].WCons) > 0 {
+				ws.Consumes(t.Services[wi].WCons...)
+			}
 			added[wi] = ws
 			seq = append(seq, wi)
 		}
@@ -248,6 +265,9 @@ func reverseOrder(t tableCase) [][2]int {
 
 func (rs reqSpec) httpRequest(extraSlash bool) (*http.Request, error) {
 	path := rs.Path
+	if rs.Opaque {
+		path = rs.Raw
+	}
 	if extraSlash {
 		path += "/"
 	}
@@ -345,12 +365,14 @@ func runRoute(planPath, outPath string, seed int64) {
 			}
 		}
 		for si := range t.Services {
+			t.Services[si].WProd, t.Services[si].WCons = nonNil(t.Services[si].WProd), nonNil(t.Services[si].WCons)
 			for ri := range t.Services[si].Routes {
 				rt := &t.Services[si].Routes[ri]
 				rt.Cons, rt.Prod, rt.Conds, rt.Noct = nonNil(rt.Cons), nonNil(rt.Prod), nonNilI(rt.Conds), nonNil(rt.Noct)
 			}
 		}
-		tw.emit(map[string]interface{}{"e": "table", "tid": ti + 1, "services": t.Services, "routers": routers})
+		withFilter = ti%2 == 1
+		tw.emit(map[string]interface{}{"e": "table", "tid": ti + 1, "services": t.Services, "routers": routers, "withFilter": withFilter})
 		var cell *obsCell
 		variants := []builtVariant{}
 		orders := [][][2]int{registrationOrder(t, r, true)}
